@@ -214,6 +214,19 @@ pub fn gen_c12(cx: &mut Ctx, prop: &str) {
             }
         }
     }
+    // brace-quoted names with every printable ASCII character first, last and in the middle (escape-like
+    // and bracket-like characters next to the closing brace)
+    for code in 0x20u8..0x7f {
+        let ch = code as char;
+        if ch == '}' {
+            continue;
+        }
+        for name in [format!("{}", ch), format!("a{}", ch), format!("{}a", ch), format!("a{}a", ch), format!("C:{}dir{}", ch, ch)] {
+            for text in [format!("{{{}}}", name), format!("{{{}}} & {{b}}", name), format!("x | !{{{}}}", name), format!("{{p{}}} | q & {{r}}", name)] {
+                emit_text(cx, prop, &text, true);
+            }
+        }
+    }
     // every constant spelling directly in front of / behind every operator spelling, with and without a gap
     {
         let consts = ["true", "TRUE", "True", "t", "T", "1", "false", "FALSE", "False", "f", "F", "0"];
@@ -723,6 +736,14 @@ pub fn gen_c16(cx: &mut Ctx) {
             }
         }
     }
+    // names that differ only in letter case are different names
+    for ns in [names(&["A", "a"]), names(&["X1", "b", "x1"]), names(&["p53", "P53"]), names(&["É", "é"])] {
+        let bits = random_bits(&mut cx.rng, ns.len());
+        let cols: Vec<usize> = (0..ns.len()).collect();
+        let rows: Vec<usize> = (0..1usize << ns.len()).collect();
+        let text = csv_text(&mut cx.rng, &ns, &bits, &cols, &rows, true, 0);
+        emit_csv(cx, &text, true);
+    }
     // arity x name length: headers of long names on wide files
     for (arity, len) in [(1usize, 13usize), (3, 13), (3, 40), (6, 12), (6, 13), (6, 40), (8, 13), (9, 12), (9, 13), (9, 14), (10, 20)] {
         let ns = sized_names(arity, len);
@@ -928,6 +949,7 @@ pub fn gen_c17(cx: &mut Ctx) {
     }
     // other identifier names
     for ns in [
+        names(&["A", "a"]), names(&["X1", "b", "x1"]), names(&["Cdc20", "cdc20", "p53", "P53"]), names(&["É", "é"]), names(&["ß", "SS", "ss"]),
         names(&["x_0", "x_1"]), names(&["B", "aa", "é"]), names(&["out", "result"]),
         names(&["F"]), names(&["T", "a"]), names(&["0", "1"]), names(&["False", "true", "z"]), names(&["a", "f"]),
         names(&["p", "q", "r", "s", "t"]), names(&["v1", "v2", "v3", "v4", "v5", "v6", "v7"]),
@@ -950,6 +972,13 @@ pub fn gen_c18(cx: &mut Ctx) {
     let mut sets = table_name_sets(cx.thorough);
     sets.push(names(&["averyveryverylongname", "x_10", "é"]));
     sets.push(names(&["B", "aa"]));
+    sets.push(names(&["true"]));
+    sets.push(names(&["false", "x"]));
+    sets.push(names(&["False", "True"]));
+    sets.push(names(&["F", "T"]));
+    sets.push(names(&["0", "1"]));
+    sets.push(names(&["result"]));
+    sets.push(names(&["A", "a"]));
     sets.push(names(&["変数", "ｘ"]));
     sets.push(names(&["e\u{301}", "遺伝子ａ"]));
     sets.push(names(&["p", "q", "r", "s"]));
